@@ -4,8 +4,10 @@ Model of `xdsl/utils/disjoint_set.py` `IntDisjointSet` (C12).  `parent` and `cou
 Python lists.  The two `while` loops of `__getitem__` become fuel-indexed recursions with fuel
 `parent.length`; `XdslProofs.C12` proves that under the forest invariant the fuel is never
 exhausted (so the model's answer is the Python loop's answer).
-`DisjointSet` (hashable values) is a thin index translation over this structure and is exercised
-through the same protocol by the harness.
+`DisjointSet` (hashable values) is a thin index translation over this structure: it is modelled in
+the second half of this file (`GDS`, values as `Nat`, `_index_by_value` as an `AL`; driver model
+`disjoint_set`), and `XdslProofs.C12Generic` proves that under the documented contract (distinct
+initial values, `add` of a new value) every wrapper operation is the `UF` operation on the indices.
 -/
 namespace Xdsl.DisjointSet
 
@@ -126,5 +128,118 @@ def lineStep (s : UF) (line : String) : UF × String :=
   | ws => match parseOp ws with
     | some o => let (s', out) := step s o; (s', showOut out)
     | none => (s, "bad-op")
+
+/-! ## `DisjointSet` — the generic wrapper (values ↔ indices)
+
+`_values : list[_T]` is a `List Nat` (values are hashable objects compared by `==`; `Nat` stands for
+them), `_index_by_value : dict[_T, int]` an association list, `_base` the `UF` above.  Nothing here
+assumes that the values are distinct: a duplicate simply overwrites its dict entry as in Python. -/
+
+structure GDS where
+  base   : UF := {}
+  values : List Nat := []
+  index  : AL Nat Nat := []
+deriving Repr
+
+inductive GOp
+  | add (v : Nat) | find (v : Nat) | union (a b : Nat) | unionLeft (a b : Nat)
+  | connected (a b : Nat)
+deriving Repr, DecidableEq
+
+inductive GOut
+  | unit | val (v : Nat) | bool (b : Bool) | keyError | indexError
+deriving Repr, DecidableEq
+
+/-- `{v: i for i, v in enumerate(values)}` starting at index `i` on top of `m` -/
+def enumIndex : List Nat → Nat → AL Nat Nat → AL Nat Nat
+  | [], _, m => m
+  | v :: vs, i, m => enumIndex vs (i + 1) (m.set v i)
+
+/-- `DisjointSet(values)` -/
+def ginit (vs : List Nat) : GDS :=
+  { base := init vs.length, values := vs, index := enumIndex vs 0 [] }
+
+/-- result of a `_base` call seen through the wrapper: `find` (`asValue`) indexes `_values` with the
+root (`self._values[index]`), `add` discards the index, boolean results and `KeyError` pass through -/
+def liftOut (vals : List Nat) (asValue : Bool) : Out → GOut
+  | .nat r =>
+    if asValue then (match vals[r]? with | some v => .val v | none => .indexError) else .unit
+  | .bool c => .bool c
+  | .keyError => .keyError
+
+def GDS.lift (g : GDS) (asValue : Bool) (p : UF × Out) : GDS × GOut :=
+  ({ g with base := p.1 }, liftOut g.values asValue p.2)
+
+/-- One call of the wrapper.  The dict lookups `self._index_by_value[…]` are evaluated before the
+`_base` method is entered, so a missing value raises `KeyError` with no effect at all. -/
+def gstep (g : GDS) : GOp → GDS × GOut
+  | .add v =>
+    -- index = self._base.add(); self._values.append(value); self._index_by_value[value] = index
+    match step g.base .add with
+    | (b, .nat i) => ({ base := b, values := g.values ++ [v], index := g.index.set v i }, .unit)
+    | p => g.lift false p
+  | .find v =>
+    match g.index.get v with
+    | none => (g, .keyError)
+    | some i => g.lift true (step g.base (.find i))
+  | .union a b =>
+    match g.index.get a with
+    | none => (g, .keyError)
+    | some i => match g.index.get b with
+      | none => (g, .keyError)
+      | some j => g.lift false (step g.base (.union i j))
+  | .unionLeft a b =>
+    match g.index.get a with
+    | none => (g, .keyError)
+    | some i => match g.index.get b with
+      | none => (g, .keyError)
+      | some j => g.lift false (step g.base (.unionLeft i j))
+  | .connected a b =>
+    match g.index.get a with
+    | none => (g, .keyError)
+    | some i => match g.index.get b with
+      | none => (g, .keyError)
+      | some j => g.lift false (step g.base (.connected i j))
+
+def grun (g : GDS) : List GOp → GDS × List GOut
+  | [] => (g, [])
+  | o :: os => let (g', out) := gstep g o; let (g'', outs) := grun g' os; (g'', out :: outs)
+
+/-- `roots()`: `self._values[root] for root in self._base.roots()` (in index order) -/
+def GDS.roots (g : GDS) : List GOut :=
+  ((List.range g.base.size).filter (fun i => g.base.par i = i)).map
+    (fun i => liftOut g.values true (.nat i))
+
+def showGOut : GOut → String
+  | .unit => "none"
+  | .val v => s!"val {v}"
+  | .bool b => s!"bool {showBool b}"
+  | .keyError => "raise KeyError"
+  | .indexError => "raise IndexError"
+
+def parseGOp : List String → Option GOp
+  | ["add", v] => v.toNat?.map .add
+  | ["find", x] => x.toNat?.map .find
+  | ["union", a, b] => do some (.union (← a.toNat?) (← b.toNat?))
+  | ["union_left", a, b] => do some (.unionLeft (← a.toNat?) (← b.toNat?))
+  | ["connected", a, b] => do some (.connected (← a.toNat?) (← b.toNat?))
+  | _ => none
+
+/-- protocol of driver model `disjoint_set`: `reset v0 v1 …` = `DisjointSet([v0, v1, …])`, then
+`add v`, `find v`, `union a b`, `union_left a b`, `connected a b`, `roots`, `len` on values -/
+def glineStep (g : GDS) (line : String) : GDS × String :=
+  match words line with
+  | "reset" :: vs =>
+    (match vs.mapM String.toNat? with
+     | some vs => (ginit vs, "ok")
+     | none => (g, "bad-op"))
+  | ["roots"] =>
+    (g, "roots " ++ " ".intercalate (g.roots.map fun
+      | .val v => toString v
+      | o => showGOut o))
+  | ["len"] => (g, s!"nat {g.values.length}")
+  | ws => match parseGOp ws with
+    | some o => let (g', out) := gstep g o; (g', showGOut out)
+    | none => (g, "bad-op")
 
 end Xdsl.DisjointSet
